@@ -107,8 +107,31 @@ def dagger_projectors(ctx, f, rule="R-COV"):
         ctx.ob(rule, f, "pure-state projectors are v @ Dagger(v)", not bad, f"{n} outer product(s) with conjugate transpose" if not bad else f"{show(bad[0])[:70]} lacks the conjugate (or the transpose)")
 
 
+def _brauer_matchings_2d(ctx):
+    """perfect_matchings(2) returns the single matching as a 1-D array; brauer indexes `matchings[i, :]` and reads `.shape[0]` as the number of
+    matchings, so the table has to be made 2-D first (F61: brauer(d, 1) raised IndexError)."""
+    m = ctx.model
+    try:
+        f = m.func("brauer.brauer")
+    except KeyError:
+        return
+    defs = [n for n in walk_no_nested(f.node) if isinstance(n, ast.Assign) and isinstance(n.targets[0], ast.Name) and "perfect_matchings" in unparse(n.value)]
+    if not defs:
+        ctx.ob("R-SHAPE", f, "the table of perfect matchings is two-dimensional before it is indexed by rows", None, "perfect_matchings call not found", required=False)
+        return
+    nm = defs[0].targets[0].id
+    txt = unparse(defs[0].value)
+    ok = "atleast_2d" in txt or "reshape" in txt or any(isinstance(n, ast.Assign) and isinstance(n.targets[0], ast.Name) and n.targets[0].id == nm and
+                                                        ("atleast_2d" in unparse(n.value) or "reshape" in unparse(n.value)) for n in walk_no_nested(f.node))
+    rows_used = any(isinstance(x, ast.Subscript) and isinstance(x.value, ast.Name) and x.value.id == nm and isinstance(x.slice, ast.Tuple) for x in walk_no_nested(f.node))
+    ctx.ob("R-SHAPE", f, "the table of perfect matchings is two-dimensional before it is indexed by rows", ok or not rows_used,
+           "np.atleast_2d(perfect_matchings(..))" if ok else
+           f"`{unparse(defs[0])[:60]}` is indexed as `{nm}[i, :]`: for p_val = 1 perfect_matchings(2) is the 1-D array [0 1] and the row index raises IndexError", defs[0])
+
+
 def run(ctx):  # noqa: C901
     m = ctx.model
+    _brauer_matchings_2d(ctx)
     ctx.rule("R-ENUM", "every documented coefficient is read (index coverage of the list form)")
     ctx.rule("R-GUARD", "documented parameter domains are enforced before construction; index matches fall through to a raise")
     ctx.rule("R-COV", "rho = |psi><psi| constructions use the conjugate transpose")
